@@ -61,7 +61,9 @@ MtlScenarios ==
         [] f = "chunk"          -> {MtlRec(b, f, b.losses, b.feats, b.tparams, b.shared, k) : k \in {-1, -2}}
         [] f = "empty_features" -> {MtlRec(b, f, b.losses, <<>>, b.tparams, b.shared, 0)}
         [] f = "empty_losses"   -> {MtlRec(b, f, <<>>, b.feats, <<>>, b.shared, 0)}
-        [] f = "nonscalar_loss" -> {MtlRec(b, f, ReplaceAt(b.losses, i, 8), b.feats, b.tparams, b.shared, 0) : i \in DOMAIN b.losses}
+        [] f = "nonscalar_loss" -> {MtlRec(b, f, ReplaceAt(b.losses, i, x), b.feats, b.tparams, b.shared, 0)
+                                      : i \in DOMAIN b.losses, x \in {8, 10}}   \* 8: two elements; 10: ONE element, presented
+                                                                                \* with shape (1,) or (1,1) - not a scalar either
         [] f = "len_mismatch"   -> {MtlRec(b, f, b.losses, b.feats, Append(b.tparams, <<>>), b.shared, 0),
                                     MtlRec(b, f, Append(b.losses, L2), b.feats, b.tparams, b.shared, 0)}
         [] f = "overlap"        -> {MtlRec(b, f, b.losses, b.feats, [b.tparams EXCEPT ![i] = InsertAt(@, p, b.shared[1])], b.shared, 0)
